@@ -632,16 +632,16 @@ pub fn run_check(replay: Option<Value>) -> i32 {
             }),
             jac: Some(Arc::new(move |_t, y| vec![0.0, 1.0, (-2.0 * y[0] * y[1] - 1.0) / eps, (1.0 - y[0] * y[0]) / eps])),
             flow: None,
-            y0: vec![2.0, 0.0],
+            y0: vec![2.0, -0.66],
             linear_homogeneous: false,
         };
         let mut out = CaseOut::default();
         let desc = json!({"key": key, "problem": p.name, "jacobian": if jsrc == 0 { "user" } else { "finite-difference" }});
         let mut basel: Option<Solution> = None;
-        for fs in [Some(1e-3), Some(0.1), None] {
+        for fs in [Some(1e-3), Some(1e-2), Some(0.1), Some(1.0), None] {
             basel = None;
             for ms in [MatrixStorage::Identity, MatrixStorage::Full, MatrixStorage::Banded { ml: 0, mu: 0 }, MatrixStorage::Banded { ml: 1, mu: 1 }] {
-                let mut c = Cfg::new(Method::RADAU, 0.0, 0.5, &p.y0).tol(1e-5, 1e-7);
+                let mut c = Cfg::new(Method::RADAU, 0.0, 2.0, &p.y0).tol(1e-6, 1e-8);
                 c.user_jac = jsrc == 0;
                 c.first_step = fs;
                 c.mass_storage = ms.clone();
